@@ -262,7 +262,7 @@ int main(int argc, char** argv) {
       const geodlat::Pair& P = pairs[pi];
       const bool pole1 = fabs(P.lat1) == 90, pole2 = fabs(P.lat2) == 90;
       const ld l12 = fabsl(remainderl((ld)P.lon2 - (ld)P.lon1, 360.0L));
-      const bool antilat = P.lat1 == -P.lat2 && !pole1, lon180 = l12 == 180 && !pole1 && !pole2;
+      const bool antilat = Math::AngRound(P.lat1) == -Math::AngRound(P.lat2) && !pole1, lon180 = l12 == 180 && !pole1 && !pole2;   // rounded: see C02
       const bool freeazi = (pole1 && pole2 && P.lat1 == -P.lat2) || (E.f == 0 && P.lat1 == -P.lat2 && l12 == 180);
       for (int sv = 0; sv < 3; ++sv) {
         if (sv == 0 && !E.series) continue;
